@@ -123,6 +123,7 @@ def small_ops(shape):
             ["next"], ["update"], ["adjust", R, 16.0, True], ["adjust", R, -8.0, False],
             ["alloc", R, "a", 16.0], ["alloc", R, "b", -16.0], ["reb", R, "b", 0.5], ["close", R, "a"],
             ["transact", R, "b", 3.0], ["flatten", R], ["batch", [["alloc", R, "a", 16.0], ["alloc", R, "b", -8.0]]],
+            ["rebbase", R, "a", 0.5, 64.0],
         ]
     if shape == "T2":
         return [
